@@ -3,38 +3,57 @@ import JunoModel.C05.ProofsPrune2
 C05 — property theorems (statements only; proofs are in `Proofs*.lean`).
 
 Block storage is atomic and crash-consistent at every interruption point. `W` is
-`core.NumBlocksPerFilter` (8192 in juno); everything holds for every `W`. `fx` says which of the
-proposed repairs the code contains (`Fixes.none` = the tree as it is).
+`core.NumBlocksPerFilter` (8192 in juno); everything holds for every `W > 0`. `fx : Fixes` says which
+repairs the code contains: `Fixes.now` = /repo at 3c301f0 (84d7a3b, 702b167, 3373c0b are in; a failed
+lazy filter initialisation still caches its error), `Fixes.all` = with
+proposed-fixes/C05-filter-init-error-not-cached.diff as well. The harness probes the real code and
+refuses to run when the probed variant is older than what `known/C05.json` records as fixed.
+
+Faults (`Fault`): `failAt k` — the k-th commit of the call fails, nothing of it is applied;
+`crashAfter k` — the process dies right after it; `failInit` — the direct window write of a lazy
+filter initialisation inside the call fails; `crashInit` — the process dies after that write,
+before the call's own commit.
+
+Modelling decision, NOT a theorem: every call except prune issues its effects as ONE batch
+(`Proofs.commits_le_one` is true by construction of the model). That juno does so is checked on the
+real code only (harness: the image after every commit must be bit-equal to the before- or the
+after-image, `op-not-atomic-*`).
 -/
 namespace Juno.C05.Props
 open Juno.C05
 
-/-! ## Atomicity -/
+/-! ## Atomicity of a call on the block buckets -/
 
-/-- `op_atomic`: for every call except `prune` (store, revert, set-L1-head, snapshot, restart,
-kill), every node state and every fault (failure of any commit, crash after any commit), the disk
-image afterwards is the image before the call (`disk0`: the node's disk after a lazy filter
-initialisation, which differs from it at most in bloom-window keys) or the image after the
-fault-free call. -/
+/-- `op_atomic`: every call except prune, every node, every fault: on EVERY key of the block
+buckets (height, header, number-by-hash, transactions, transaction lookups, state update,
+commitments, state) the disk afterwards equals the node's disk before the call, or the whole disk
+is the image after the fault-free call. (Window keys may in addition hold what a lazy filter
+initialisation wrote: `lazy_init_writes_only_complete_windows`.) -/
 theorem op_atomic (W : Nat) (fx : Fixes) (n : Node) (op : Op) (ft : Fault) (h : ∀ e, op ≠ .prune e) :
-    (exec W fx n op ft).1.disk = (plan W fx n op).disk0 ∨
-    (exec W fx n op ft).1.disk = (exec W fx n op .none).1.disk :=
-  op_atomic_lemma W fx n op ft h
+    (∀ k, IsChainKey k → (exec W fx n op ft).1.disk k = n.disk k) ∨
+    (exec W fx n op ft).1.disk = (exec W fx n op .none).1.disk := by
+  rcases op_atomic_lemma W fx n op ft h with hd | hd | hd
+  · left; intro k hk; rw [hd]; exact disk0_chainKeys W fx n op h k hk
+  · right; exact hd
+  · left; intro k _; rw [hd]
 
-/-- The reason: one batch (or one direct write) per call. -/
-theorem one_commit_per_call (W : Nat) (fx : Fixes) (n : Node) (op : Op) (h : ∀ e, op ≠ .prune e) :
-    (plan W fx n op).commits.length ≤ 1 :=
-  commits_le_one W fx n op h
+/-- What a lazy initialisation may write on a good node: nothing but complete windows of the
+chain, each without false negatives (so the persisted windows stay exactly the complete ones). -/
+theorem lazy_init_writes_only_complete_windows (W : Nat) (hW : 0 < W) (c : List Block) (d : Disk)
+    (hwf : WfChain c) (hc : Coh c d) (hw : WinsOK W c d) (hs : SnapOK W c d) :
+    ∃ f d', initFilter W d = some (f, d') ∧ WinsGrow W c d d' := by
+  obtain ⟨f, d', h1, _, h3⟩ := initFilter_grow hW hwf hc hw hs
+  exact ⟨f, d', h1, h3⟩
 
 /-! ## Every reachable image is coherent -/
 
 /-- `consistent_image`: for every history of store / revert / set-L1-head / snapshot / graceful and
-ungraceful restart calls from the empty node, every fault schedule (any commit failing, a crash
-after any commit) and every repair variant of the code, the disk image describes exactly one
-well-formed chain `c` (`Coh`): height = last block, header / transactions / state update /
-commitments present for exactly the blocks of `c`, hash→number and transaction-hash lookups
-exactly those of `c` (none dangling), state = the head's. Inputs: stored blocks carry unused
-hashes (`ValidHist`); `prune` is treated separately. -/
+ungraceful restart calls from the empty node, every fault schedule and every variant of the code,
+the disk image describes exactly one well-formed chain `c` (`Coh`): height = last block, header /
+transactions / state update / commitments present for exactly the blocks of `c`, hash→number and
+transaction-hash lookups exactly those of `c` (none dangling), state = the head's. Inputs
+(`ValidHist`): a block that EXTENDS the head when offered carries unused hashes; offers the node
+must refuse (duplicates, orphans, gaps, wrong roots) are unrestricted; prune is treated separately. -/
 theorem consistent_image (W : Nat) (fx : Fixes) (hs : List (Op × Fault))
     (hv : ValidHist W fx Node.init hs) :
     ∃ c, WfChain c ∧ Coh c (run W fx Node.init hs).disk :=
@@ -42,39 +61,30 @@ theorem consistent_image (W : Nat) (fx : Fixes) (hs : List (Op × Fault))
 
 /-- One call from any coherent node, any fault: the image stays coherent (the invariant step). -/
 theorem call_keeps_image_coherent (W : Nat) (fx : Fixes) (n : Node) (op : Op) (ft : Fault)
-    (hfresh : ∀ b, op = .store b → Fresh n.disk b) (hp : ∀ e, op ≠ .prune e)
+    (hfresh : ∀ b, op = .store b → Extends n.disk b → Fresh n.disk b) (hp : ∀ e, op ≠ .prune e)
     (hi : ∃ c, WfChain c ∧ Coh c n.disk) :
     ∃ c, WfChain c ∧ Coh c (exec W fx n op ft).1.disk :=
   exec_cinv W fx n op ft hfresh hp hi
 
-/-! ## Restart and the next block
+/-! ## Restart, next block, memory — `Good`
 
 `Good W c n` (ModelSpec): the image describes chain `c` (`Coh`), the persisted bloom windows are
 exactly the complete windows of `c`, each without false negatives (`WinsOK`), the persisted
-snapshot — if any — describes a prefix of `c` (`SnapOK`), and the in-memory filter is lazy or
-describes `c` (`MemOK`).
+snapshot — if any — describes a prefix of `c` (`SnapOK`), and the in-memory filter is dropped
+(lazy: rebuilt from the disk on next use) or describes `c` (`MemOK`; a filter whose initialisation
+error is cached, `Mem.broken`, is NOT ok). -/
 
-The full-strength statements (`crash_consistent`, `restart_ok`, `next_block_storable`,
-`memory_tracks_disk`, below) are proved for the code as it is now (`Fixes.all`: fix commits
-84d7a3b, 702b167, 3373c0b) by showing that `Good` is an invariant of EVERY history and EVERY fault
-schedule. For the earlier trees they are false — a failed Store / RevertHead commit left the
-memory filter mutated (L4), RevertHead kept a stale snapshot (L3) and the persisted window of a
-window that lost its last block (L15): the proved negations at the end are the witnesses, and
-`crash_consistent_without_reverts_any_variant` is what holds for every variant. -/
-
-/-- `crash_consistent`: the code as it is now. For EVERY history over {store of any fresh block,
-RevertHead, set-L1-head, snapshot, graceful restart, kill} from the empty node and EVERY fault
-schedule (failure of any commit, crash after any commit) the node ends good: the image describes
-one well-formed chain, exactly the complete bloom windows are persisted and none has a false
-negative, the persisted snapshot (if any) describes a prefix of the chain, the in-memory filter is
-either dropped or describes the chain. -/
+/-- `crash_consistent` (code with all four repairs): for EVERY history over {store or refused offer
+of any block, RevertHead, set-L1-head, snapshot, graceful restart, kill} from the empty node and
+EVERY fault schedule — failure of any commit, failure of a lazy initialisation's write, crash
+after any commit or after the initialisation's write — the node ends good. -/
 theorem crash_consistent (W : Nat) (hW : 0 < W) (hs : List (Op × Fault))
     (hv : ValidHist W Fixes.all Node.init hs) :
     ∃ c, Good W c (run W Fixes.all Node.init hs) :=
-  good_run_repaired hW rfl rfl rfl hs Node.init [] (good_init W hW) hv
+  good_run_repaired hW rfl rfl rfl rfl hs Node.init [] (good_init W hW) hv
 
-/-- `restart_ok`: after any such history and fault schedule, a new process initialises its
-running filter successfully and exactly (next = height+1, aligned window, no false negatives). -/
+/-- `restart_ok`: after any such history, a new process initialises its running filter
+successfully and exactly (next = height+1, aligned window, no false negatives). -/
 theorem restart_ok (W : Nat) (hW : 0 < W) (hs : List (Op × Fault))
     (hv : ValidHist W Fixes.all Node.init hs) :
     ∃ c f d', Coh c (run W Fixes.all Node.init hs).disk ∧
@@ -83,8 +93,8 @@ theorem restart_ok (W : Nat) (hW : 0 < W) (hs : List (Op × Fault))
   obtain ⟨f, d', h1, h2⟩ := initFilter_good hW hg.wf hg.coh hg.wins hg.snap
   exact ⟨c, f, d', hg.coh, h1, h2⟩
 
-/-- `next_block_storable`: after any such history and fault schedule — on the live node after a
-failed call as well as on a restarted one — the block the network offers next is stored. -/
+/-- `next_block_storable`: after any such history — on the live node after a failed call as well
+as on a restarted one — the block the network offers next is stored. -/
 theorem next_block_storable (W : Nat) (hW : 0 < W) (hs : List (Op × Fault))
     (hv : ValidHist W Fixes.all Node.init hs) :
     ∃ c, Coh c (run W Fixes.all Node.init hs).disk ∧
@@ -94,20 +104,70 @@ theorem next_block_storable (W : Nat) (hW : 0 < W) (hs : List (Op × Fault))
   exact ⟨c, hg.coh, fun b hn => store_ok_of_good hW _ hg hn⟩
 
 /-- `memory_tracks_disk`: after every call of any such history, failed or not, the in-memory
-running filter is either dropped (rebuilt from the disk on next use) or describes the chain the
-disk holds — it never disagrees with the disk. -/
+running filter is either dropped or describes the chain the disk holds; in particular no
+initialisation error is ever cached. -/
 theorem memory_tracks_disk (W : Nat) (hW : 0 < W) (hs : List (Op × Fault))
     (hv : ValidHist W Fixes.all Node.init hs) :
     ∃ c, Coh c (run W Fixes.all Node.init hs).disk ∧ MemOK W c (run W Fixes.all Node.init hs).mem := by
   obtain ⟨c, hg⟩ := crash_consistent W hW hs hv
   exact ⟨c, hg.coh, hg.mem⟩
 
-/-- One RevertHead of the repaired code from a good node, any fault. -/
-theorem revert_keeps_good (W : Nat) (hW : 0 < W) (c : List Block) (n : Node) (hg : Good W c n)
-    (ft : Fault) : ∃ c', Good W c' (exec W Fixes.all n .revert ft).1 :=
-  revert_good hW rfl rfl rfl hg ft
+/-- One call of the fully repaired code from a good node, any fault. -/
+theorem call_keeps_good (W : Nat) (hW : 0 < W) (c : List Block) (n : Node) (hg : Good W c n)
+    (op : Op) (ft : Fault)
+    (hv : match op with
+      | .store b => Extends n.disk b → Fresh n.disk b
+      | .prune _ => False
+      | _ => True) :
+    ∃ c', Good W c' (exec W Fixes.all n op ft).1 :=
+  exec_good_repaired hW rfl rfl rfl rfl hg op ft hv
 
+/-! ### The code as it is (`Fixes.now`): true except for a failed initialisation write -/
 
+/-- `crash_consistent_partial` (/repo at 3c301f0): the same, for every history and fault schedule
+in which no write of a lazy filter initialisation fails (`failInit`); crashes inside the
+initialisation are covered. Partial because juno violates the full statement: next theorem. -/
+theorem crash_consistent_partial (W : Nat) (hW : 0 < W) (hs : List (Op × Fault))
+    (hv : ValidHist W Fixes.now Node.init hs) (hni : ∀ x ∈ hs, x.2 ≠ .failInit) :
+    ∃ c, Good W c (run W Fixes.now Node.init hs) :=
+  good_run_now hW rfl rfl rfl hs Node.init [] (good_init W hW) hv hni
+
+/-- `memory_tracks_disk_partial`: … hence the memory filter is dropped or exact. -/
+theorem memory_tracks_disk_partial (W : Nat) (hW : 0 < W) (hs : List (Op × Fault))
+    (hv : ValidHist W Fixes.now Node.init hs) (hni : ∀ x ∈ hs, x.2 ≠ .failInit) :
+    ∃ c, Coh c (run W Fixes.now Node.init hs).disk ∧ MemOK W c (run W Fixes.now Node.init hs).mem := by
+  obtain ⟨c, hg⟩ := crash_consistent_partial W hW hs hv hni
+  exact ⟨c, hg.coh, hg.mem⟩
+
+def b0 : Block := ⟨0, 1, 0, 11, 0, 11, [5], [100]⟩
+def b1 : Block := ⟨1, 2, 1, 12, 11, 12, [6], [101]⟩
+def b1' : Block := ⟨1, 7, 1, 17, 11, 17, [9], [107]⟩
+def b2 : Block := ⟨2, 3, 2, 13, 12, 13, [7], []⟩
+
+/-- A node whose lazy initialisation has to write: block 0, graceful restart (snapshot next = 1),
+block 1 (the last of its window, W = 2), ungraceful stop. -/
+def hInit : List (Op × Fault) :=
+  [(.store b0, .none), (.restart, .none), (.store b1, .none), (.kill, .none)]
+
+/-- NEGATION of `memory_tracks_disk` / `next_block_storable` for the code as it is (L17): the
+initialisation's window write fails once inside `WriteRunningEventFilter` — the error is cached
+(`Mem.broken`); every later snapshot attempt fails with it although the disk is intact and
+healthy, and the next block is refused once (the failed Store then drops the filter). -/
+theorem failed_init_write_is_cached :
+    let n := run 2 .now Node.init (hInit ++ [(.snap, .failInit)])
+    n.mem = .broken ∧ getHeight n.disk = some 1 ∧
+    (exec 2 .now n .snap .none).2 = .err .init ∧
+    (exec 2 .now (exec 2 .now n .snap .none).1 .snap .none).2 = .err .init ∧
+    (exec 2 .now n (.store b2) .none).2 = .err .init ∧
+    (exec 2 .now (exec 2 .now n (.store b2) .none).1 (.store b2) .none).2 = .ok := by decide
+
+/-- … and with the repair (the error is not kept) the retry succeeds and the block is stored. -/
+theorem failed_init_write_not_cached_when_repaired :
+    let n := run 2 .all Node.init (hInit ++ [(.snap, .failInit)])
+    n.mem = .lazy ∧ (exec 2 .all n .snap .none).2 = .ok ∧ (exec 2 .all n (.store b2) .none).2 = .ok := by
+  decide
+
+/-! ### Steps and variants -/
 
 /-- `restart_ok` for good disks: InitializeRunningEventFilter succeeds and yields a filter that
 expects block `height+1`, has the aligned window of that block, and has no false negative for any
@@ -141,151 +201,129 @@ theorem memory_tracks_store (W : Nat) (hW : 0 < W) (c : List Block) (f : Filt) (
             w'.has x i = true)) :=
   insert_filtOK hW hf hb
 
-/-- A Store from a good node — the block the network offers next — completed, or cut short by a
-crash right after its commit: the node is good again, for the extended chain (so a restart builds
-the right filter and the block after it can be stored: `restart_ok_of_good`,
-`next_block_storable_of_good`). Every repair variant. -/
-theorem store_keeps_good (W : Nat) (hW : 0 < W) (fx : Fixes) (c : List Block) (n : Node) (b : Block)
-    (hg : Good W c n) (hn : NextBlock c n.disk b) (ft : Fault) (hft : ∀ k, ft ≠ .failAt k) :
-    Good W (c ++ [b]) (exec W fx n (.store b) ft).1 :=
-  store_good hW fx hg hn ft hft
-
-/-- `crash_consistent_without_reverts_any_variant` (also true of the unrepaired trees): every history over {store (any fresh block, also
-ones the node must refuse), set-L1-head, snapshot, graceful restart, kill} from the empty node,
-with a crash after ANY commit and a failure of ANY snapshot / L1-head write, ends in a good node:
-coherent image, exactly the complete windows persisted and sound, snapshot (if any) describing a
-prefix of the chain, memory filter lazy or exact. Hence after such a history a restart yields the
-right filter and the next block is stored. Partial: no RevertHead / prune in the history and no
-failed Store commit (those are where the unrepaired code breaks — witnesses below). -/
-theorem crash_consistent_without_reverts_any_variant (W : Nat) (hW : 0 < W) (fx : Fixes)
+/-- `crash_consistent_without_reverts_partial` (EVERY variant, also the trees before the fix
+commits): histories over {store or refused offer, set-L1-head, snapshot, graceful restart, kill}
+with a crash after ANY commit and a failure of ANY snapshot / L1-head write end in a good node.
+Partial: no RevertHead, no failed Store commit, no failed initialisation write — where the old
+trees broke (regression witnesses at the end). -/
+theorem crash_consistent_without_reverts_partial (W : Nat) (hW : 0 < W) (fx : Fixes)
     (hs : List (Op × Fault)) (hv : ValidHist W fx Node.init hs) (hnr : NoRevert hs)
     (hnf : NoFailedChainCommit hs) :
     ∃ c, Good W c (run W fx Node.init hs) :=
   good_run_no_revert hW fx hs Node.init [] (good_init W hW) hv hnr hnf
 
--- non-vacuity: the empty node is good for every window size
-example (W : Nat) (hW : 0 < W) : Good W [] Node.init := by
-  refine ⟨cinv_init_wf, cinv_init_coh, ⟨?_, ?_⟩, ?_, ?_⟩
-  · intro lo; simp [getWin, Node.init, Disk.empty]; omega
-  · intro lo w h; simp [getWin, Node.init, Disk.empty] at h
-  · simp [SnapOK, Node.init, Disk.empty]
-  · simp [MemOK, Node.init]
+-- non-vacuity: the empty node is good; a non-trivial good node of the repaired code (a failed
+-- Store commit at a window rollover, a crash in a RevertHead that re-opens a window, a failed
+-- initialisation write, duplicate offers) is reached by a `ValidHist` history
+example (W : Nat) (hW : 0 < W) : Good W [] Node.init := good_init W hW
+
+def hMixed : List (Op × Fault) :=
+  [(.store b0, .none), (.store b0, .none), (.store b1, .failAt 0), (.store b1, .none),
+   (.store b0, .crashAfter 0), (.store b2, .none), (.revert, .failAt 0), (.revert, .none),
+   (.revert, .crashAfter 0), (.restart, .none), (.store b1', .none), (.kill, .none),
+   (.snap, .failInit), (.snap, .crashInit), (.store b1', .none)]
+
+example : ValidHist 2 .all Node.init hMixed := by
+  simp only [hMixed, ValidHist, run, and_true]
+  refine ⟨?_, ?_, ?_, ?_, ?_, ?_, trivial, trivial, trivial, trivial, ?_, trivial, trivial, trivial, ?_⟩ <;>
+    first
+    | (intro h; exact absurd h (by unfold Extends; decide))
+    | (intro _; refine ⟨?_, ?_, ?_⟩ <;> decide)
+
+example : getHeight (run 2 .all Node.init hMixed).disk = some 1 := by decide
 
 /-! ## Pruning: several batches, each atomic, every image in between well-defined
 
 `PCoh lag c F d` (ProofsPrune): the image describes chain `c` pruned below `F` — blocks at or above
 `F` fully present (header, transactions, state update, commitments, hash→number, transaction
 lookups), blocks below `F` fully absent, except the pruner's two carve-outs (hash→number of block
-`F-1`; headers of the last `lag` blocks below `F`). `PCoh lag c 0 d` is `Coh c d`. -/
+`F-1`; headers of the last `lag` blocks below `F`). `PCoh lag c 0 d` is `Coh c d`.
+Not covered by a theorem: histories that CONTINUE after a prune (see notes: `GoodP`). -/
 
 /-- `prune_atomic_batches`: `PruneUpto(e)` (sweep of 55da2ac: every batch carries the range delete
-for the blocks it covers) on a node pruned below `F0`, with ANY batch-size threshold, cut after
-ANY number `k` of batches: the image is pruned below some `F`, `F0 ≤ F ≤ e` — never a block that
-is "retained" but has lost its hash-keyed indexes — and after the last batch `F = e`. -/
-theorem prune_atomic_batches (W thr : Nat) (c : List Block) (hwf : WfChain c) (n : Node) (F0 e : Nat)
-    (hp : PCoh blockHashLag c F0 n.disk) (hF0 : F0 < e) (he : e ≤ c.length) (k : Nat) :
+for the blocks it covers) on a node pruned below `F0`, for EVERY rotation decision `cut` (any byte
+threshold, any pattern of batch sizes), cut short after ANY number `k` of batches: the image is
+pruned below some `F`, `F0 ≤ F ≤ e` — never a block that is "retained" but has lost its hash-keyed
+indexes — after the last batch `F = e`, and the fault-free call returns ok. -/
+theorem prune_atomic_batches (W : Nat) (cut : Nat → List Write → Bool) (c : List Block) (hwf : WfChain c)
+    (n : Node) (F0 e : Nat) (hp : PCoh blockHashLag c F0 n.disk) (hF0 : F0 < e) (he : e ≤ c.length)
+    (k : Nat) :
     ∃ F, F0 ≤ F ∧ F ≤ e ∧
-      PCoh blockHashLag c F (applyCommits n.disk ((prunePlanThr W n e thr).commits.take k)) ∧
-      ((prunePlanThr W n e thr).commits.length ≤ k → F = e) := by
-  obtain ⟨_, F, h1, h2, h3, h4, _⟩ := prune_images (W := W) (thr := thr) hwf hp hF0 he k
-  exact ⟨F, h1, h2, h3, h4⟩
+      PCoh blockHashLag c F (applyCommits n.disk ((prunePlanThr W n e cut).commits.take k)) ∧
+      ((prunePlanThr W n e cut).commits.length ≤ k → F = e) ∧ (prunePlanThr W n e cut).out = .ok := by
+  obtain ⟨_, F, h1, h2, h3, h4, h5⟩ := prune_images (W := W) (cut := cut) hwf hp hF0 he k
+  exact ⟨F, h1, h2, h3, h4, h5⟩
 
-/-- … and as a call under any fault (failure of any batch commit, crash after any batch). -/
+/-- … and as a call under any commit fault (failure of any batch commit, crash after any batch). -/
 theorem prune_crash_consistent (W : Nat) (fx : Fixes) (c : List Block) (hwf : WfChain c) (n : Node)
-    (F0 e : Nat) (hp : PCoh blockHashLag c F0 n.disk) (hF0 : F0 < e) (he : e ≤ c.length) (ft : Fault) :
+    (F0 e : Nat) (hp : PCoh blockHashLag c F0 n.disk) (hF0 : F0 < e) (he : e ≤ c.length) (ft : Fault)
+    (hb : ft ≠ .failInit ∧ ft ≠ .crashInit) :
     ∃ F, F0 ≤ F ∧ F ≤ e ∧ PCoh blockHashLag c F (exec W fx n (.prune e) ft).1.disk ∧
       (ft = .none → F = e ∧ (exec W fx n (.prune e) ft).2 = .ok) :=
-  prune_exec_images fx hwf hp hF0 he ft
-
-/-- Storing the next block on an image pruned below `F` (the batch of `Store` / `Finalise`, filter
-writes included) gives the image of the extended chain pruned below the same `F`. -/
-theorem store_on_pruned_image (c : List Block) (F : Nat) (d : Disk) (b : Block) (ws : List Write)
-    (hwf' : WfChain (c ++ [b])) (hp : PCoh blockHashLag c F d) (hF : F ≤ c.length)
-    (hnd : b.txs.Nodup) (hfh : c.find? (fun x => x.hash = b.hash) = none)
-    (hft : ∀ t ∈ b.txs, lookupTx c t = none) (haux : OnlyAux ws) :
-    PCoh blockHashLag (c ++ [b]) F (applyBatch d (blockWrites b ++ ws)) :=
-  pcoh_append hwf' hp hF hnd hfh hft haux
-
-/-- Reverting the head of an image pruned below `F` (head not pruned) gives the image of the chain
-without its head, pruned below the same `F`. -/
-theorem revert_on_pruned_image (c' : List Block) (last : Block) (F : Nat) (d : Disk) (ws : List Write)
-    (hwf : WfChain (c' ++ [last])) (hp : PCoh blockHashLag (c' ++ [last]) F d) (hF : F ≤ c'.length)
-    (haux : OnlyAux ws) :
-    PCoh blockHashLag c' F (applyBatch d (revertWrites c'.length last last last ++ ws)) :=
-  pcoh_prefix hwf hp hF haux
+  prune_exec_images fx hwf hp hF0 he ft hb
 
 /-- The first prune of a node that has never pruned starts from a coherent image. -/
 theorem coherent_is_unpruned (c : List Block) (d : Disk) (h : Coh c d) : PCoh blockHashLag c 0 d :=
   pcoh_zero_of_coh h
 
-/-! ## Witnesses: where the unrepaired code breaks the property (window size 2 or 4 so that the
-kernel can run them; the harness replays the same histories on the real code with 8192) -/
+-- non-vacuity of the prune theorems: a stored three-block chain is coherent, hence `PCoh … 0`
+example : ∃ c, WfChain c ∧ c.length = 3 ∧
+    PCoh blockHashLag c 0 (run 4 .all Node.init [(.store b0, .none), (.store b1, .none), (.store b2, .none)]).disk := by
+  obtain ⟨c, hwf, hc⟩ := consistent_image 4 .all [(.store b0, .none), (.store b1, .none), (.store b2, .none)] (by
+    simp only [ValidHist, run, and_true]
+    refine ⟨?_, ?_, ?_⟩ <;> (intro _; refine ⟨?_, ?_, ?_⟩ <;> decide))
+  refine ⟨c, hwf, ?_, pcoh_zero_of_coh hc⟩
+  have := hc.height
+  have h2 : getHeight (run 4 .all Node.init [(.store b0, .none), (.store b1, .none), (.store b2, .none)]).disk = some 2 := by
+    decide
+  rw [h2] at this
+  by_cases h0 : c.length = 0
+  · simp [h0] at this
+  · simp [h0] at this; omega
 
-def b0 : Block := ⟨0, 1, 0, 11, 0, [5], [100]⟩
-def b1 : Block := ⟨1, 2, 1, 12, 11, [6], [101]⟩
-def b1' : Block := ⟨1, 7, 1, 17, 11, [9], [107]⟩
-def b2 : Block := ⟨2, 3, 2, 13, 12, [7], []⟩
+/-! ## Regression witnesses for defects that are fixed in /repo (code variants that no longer exist)
 
--- non-vacuity: a history with a failed commit, a crash, a revert and a restart meets `ValidHist`
-example : ValidHist 4 .none Node.init
-    [(.store b0, .none), (.store b1, .failAt 0), (.store b1, .crashAfter 0), (.revert, .none),
-     (.restart, .none), (.store b1', .none)] := by
-  simp only [ValidHist]
-  refine ⟨⟨?_, ?_, ?_⟩, ⟨?_, ?_, ?_⟩, ⟨?_, ?_, ?_⟩, trivial, trivial, ⟨?_, ?_, ?_⟩, trivial⟩ <;> decide
+Window size 2 or 4 so that the kernel can run them; the harness replayed the same histories on
+the real code with 8192. Each `_before_<commit>` is the defect, `_now` the same history on the
+present code. -/
 
-/-- L4 (store): a commit failure while storing the last block of a window leaves the in-memory
-filter rolled over; the retry of the same block fails with "block number is not within range". -/
-theorem failed_store_commit_blocks_retry :
-    (exec 2 .none (run 2 .none Node.init [(.store b0, .none), (.store b1, .failAt 0)]) (.store b1) .none).2
-      = .err .range := by decide
+/-- L4 (store), before 3373c0b: a commit failure while storing the last block of a window left the
+in-memory filter rolled over; the retry failed with "block number is not within range". -/
+theorem failed_store_commit_blocks_retry_before_3373c0b :
+    (exec 2 ⟨false, true, true, false⟩ (run 2 ⟨false, true, true, false⟩ Node.init
+      [(.store b0, .none), (.store b1, .failAt 0)]) (.store b1) .none).2 = .err .range := by decide
 
-/-- … and the repaired code stores it. -/
-theorem failed_store_commit_retry_ok_when_repaired :
-    (exec 2 .all (run 2 .all Node.init [(.store b0, .none), (.store b1, .failAt 0)]) (.store b1) .none).2
+theorem failed_store_commit_retry_ok_now :
+    (exec 2 .now (run 2 .now Node.init [(.store b0, .none), (.store b1, .failAt 0)]) (.store b1) .none).2
       = .ok := by decide
 
-/-- The tree as it is after the fix commits 84d7a3b (L3) and 702b167 (L15): only L4 is left. -/
-def fxNow : Fixes := ⟨false, true, true⟩
-
-/-- L4 is still there in that tree … -/
-theorem failed_store_commit_blocks_retry_now :
-    (exec 2 fxNow (run 2 fxNow Node.init [(.store b0, .none), (.store b1, .failAt 0)]) (.store b1) .none).2
-      = .err .range := by decide
-
-/-- … while L15 and L3 are gone. -/
-theorem crossing_revert_then_crash_ok_now :
-    (exec 2 fxNow
-      (run 2 fxNow Node.init [(.store b0, .none), (.store b1, .none), (.store b2, .none),
-        (.revert, .none), (.revert, .crashAfter 0)]) (.store b1') .none).2 = .ok := by decide
-
-/-- L4 (revert): after a failed RevertHead commit the head block is still on disk but the
-in-memory filter has lost its bits (event queries miss the head block's events). -/
-theorem failed_revert_commit_loses_head_bits :
-    let n := run 4 .none Node.init [(.store b0, .none), (.store b1, .none), (.revert, .failAt 0)]
+/-- L4 (revert), before 3373c0b: after a failed RevertHead commit the head was still on disk but
+the in-memory filter had lost its bits. -/
+theorem failed_revert_commit_loses_head_bits_before_3373c0b :
+    let n := run 4 ⟨false, true, true, false⟩ Node.init
+      [(.store b0, .none), (.store b1, .none), (.revert, .failAt 0)]
     getHeight n.disk = some 1 ∧ n.mem.has? 1 6 = some false ∧ n.mem.next? = some 1 := by decide
 
-/-- L15: reverting the last block of a window leaves that window's persisted filter on disk; a
-process that dies afterwards rebuilds a filter for the NEXT window and can never store the block
-again. -/
-theorem crossing_revert_then_crash_blocks_store :
+/-- L15, before 702b167: reverting the last block of a window left that window's persisted filter;
+a process that died afterwards could never store the block again. -/
+theorem crossing_revert_then_crash_blocks_store_before_702b167 :
     (exec 2 .none
       (run 2 .none Node.init [(.store b0, .none), (.store b1, .none), (.store b2, .none),
         (.revert, .none), (.revert, .crashAfter 0)]) (.store b1') .none).2 = .err .range := by decide
 
-theorem crossing_revert_then_crash_ok_when_repaired :
-    (exec 2 .all
-      (run 2 .all Node.init [(.store b0, .none), (.store b1, .none), (.store b2, .none),
+theorem crossing_revert_then_crash_ok_now :
+    (exec 2 .now
+      (run 2 .now Node.init [(.store b0, .none), (.store b1, .none), (.store b2, .none),
         (.revert, .none), (.revert, .crashAfter 0)]) (.store b1') .none).2 = .ok := by decide
 
-/-- L3: the snapshot written at shutdown is trusted after a revert-and-replace of the block below
-its `next`: an ungraceful restart yields a filter without the bits of the replacing block. -/
-theorem stale_snapshot_after_revert :
+/-- L3, before 84d7a3b: the shutdown snapshot was trusted after a revert-and-replace. -/
+theorem stale_snapshot_after_revert_before_84d7a3b :
     let n := run 4 .none Node.init [(.store b0, .none), (.store b1, .none), (.restart, .none),
       (.revert, .none), (.store b1', .none), (.kill, .none)]
     getHeight n.disk = some 1 ∧ initObs 4 n.disk 1 9 = some (false, 2) := by decide
 
-theorem stale_snapshot_gone_when_repaired :
-    let n := run 4 .all Node.init [(.store b0, .none), (.store b1, .none), (.restart, .none),
+theorem stale_snapshot_gone_now :
+    let n := run 4 .now Node.init [(.store b0, .none), (.store b1, .none), (.restart, .none),
       (.revert, .none), (.store b1', .none), (.kill, .none)]
     initObs 4 n.disk 1 9 = some (true, 2) := by decide
 
